@@ -139,15 +139,32 @@ func parsePlugins(ifi rawInterface, maxInterval time.Duration, epoch time.Time) 
 			base = *p.Prefix
 		}
 
-		prefix, err := netip.ParsePrefix(base)
+		prefix, err := parsePREF64Prefix(base)
 		if err != nil {
-			return nil, err
+			return nil, fmt.Errorf("failed to parse PREF64 prefix %q: %v", base, err)
 		}
 
 		plugins = append(plugins, plugin.NewPREF64(prefix, maxInterval))
 	}
 
 	return plugins, nil
+}
+
+// parsePREF64Prefix parses s as a NAT64 prefix suitable for a PREF64 option: a
+// canonical IPv6 CIDR prefix with one of the lengths permitted by RFC 8781
+// Section 4.
+func parsePREF64Prefix(s string) (netip.Prefix, error) {
+	prefix, err := parseIPPrefix(s)
+	if err != nil {
+		return netip.Prefix{}, err
+	}
+
+	switch prefix.Bits() {
+	case 96, 64, 56, 48, 40, 32:
+		return prefix, nil
+	default:
+		return netip.Prefix{}, errors.New("prefix length must be 96, 64, 56, 48, 40, or 32")
+	}
 }
 
 // parseDNSSL parses a DNSSL plugin.
